@@ -13,6 +13,15 @@ struct Route<'a> {
     min_receive: Option<u128>,
     to: &'a Option<AddrRef>,
     entry: &'static str,
+    /// coins attached besides the first hop's offer denom: (asset key, amount)
+    extra: Vec<(String, u128)>,
+}
+
+fn input_key_ref(hops: &[Hop]) -> Option<String> {
+    match hops.first().map(|h| &h.offer) {
+        Some(AssetRef::Native(d)) => Some(crate::ledger::native_key(d)),
+        _ => None,
+    }
 }
 
 fn route_of<'a>(ctx: &'a Ctx) -> Option<Route<'a>> {
@@ -42,6 +51,11 @@ fn route_of<'a>(ctx: &'a Ctx) -> Option<Route<'a>> {
                 min_receive: min_receive.map(|m| m.u128()),
                 to,
                 entry: "exec",
+                extra: funds
+                    .iter()
+                    .map(|f| (crate::ledger::native_key(&f.denom), f.amount.u128()))
+                    .filter(|(k, _)| Some(k) != input_key_ref(hops).as_ref())
+                    .collect(),
             })
         }
         Op::RouteHook {
@@ -57,6 +71,7 @@ fn route_of<'a>(ctx: &'a Ctx) -> Option<Route<'a>> {
             min_receive: min_receive.map(|m| m.u128()),
             to,
             entry: "hook",
+            extra: vec![],
         }),
         _ => None,
     }
@@ -163,11 +178,14 @@ pub fn run(ctx: &Ctx, cov: &mut Cover) {
     if let Some(mr) = r.min_receive {
         let gain = ctx.view.post(&final_key, &recipient) as i128
             - ctx.view.pre(&final_key, &recipient) as i128;
-        let paid_by_recipient = if recipient == ctx.sender && r.input_key.as_deref() == Some(&final_key) {
+        let mut paid_by_recipient = if recipient == ctx.sender && r.input_key.as_deref() == Some(&final_key) {
             r.input as i128
         } else {
             0
         };
+        if recipient == ctx.sender {
+            paid_by_recipient += r.extra.iter().filter(|(k, _)| *k == final_key).map(|(_, v)| *v as i128).sum::<i128>();
+        }
         let quote = match &ctx.pre.route_quote {
             Some(Ok(q)) => Some(*q),
             _ => None,
@@ -223,6 +241,11 @@ pub fn run(ctx: &Ctx, cov: &mut Cover) {
                 }
             }
         }
+    }
+    if r.extra.iter().any(|(k, _)| route_keys.contains(k)) {
+        // a second route asset attached to the call is outside the statement's single input
+        cov.reach("C13.extra_route_asset_attached_skipped");
+        return;
     }
     if route_keys.iter().any(|k| ctx.view.pre(k, &m.router) != 0) {
         cov.reach("C13.router_held_route_asset_skipped");
